@@ -1,6 +1,7 @@
 """R-EXTENT.tmp (C04): writes into a freshly allocated scratch block stay inside the size that was requested.
 
-Every function of the library that obtains a limb block from TMP_ALLOC_LIMBS / TMP_ALLOC_LIMBS_2 / the allocate function is run
+Every function of the library that obtains a limb block from TMP_ALLOC_LIMBS / TMP_ALLOC_LIMBS_2 / the allocate function, or
+declares a fixed-size local limb array (mp_limb_t tp[MUL_KARATSUBA_THRESHOLD_LIMIT], rp[GET_STR_PRECOMPUTE_THRESHOLD]), is run
 through aliasflow with only the extent rule armed: the block is a region whose size is the linear term that was requested (in
 limbs), every pointer into it carries its offset term, and each store `p[i] = ...` or call to an mpn routine with a documented
 write extent (MPN_EXTENTS: mpn_mul writes un+vn limbs, mpn_sqr 2n, mpn_add_n n, ...) produces the obligation
@@ -21,6 +22,8 @@ def has_alloc(fn):
             e = el["e"]
             if e.get("k") == "call" and (e.get("callee") in aliasflow.TMP_ALLOC or e.get("callee") == "__builtin_alloca" or
                                          (e.get("callee") is None and aliasflow.Analysis.is_allocator_call(e) == "alloc")):
+                return True
+            if e.get("k") == "decl" and any(aliasflow._ARR.match(d["var"].get("ct", "")) for d in e["decls"]):
                 return True
     return False
 
